@@ -33,6 +33,7 @@ class VerusResult:
         self.stderr_tail = ""
         self.cmd = ""
         self.version = ""
+        self.limit_note = ""
 
 
 def run(path, extra_args=(), timeout=900, rlimit=None, cwd=None):
@@ -105,7 +106,15 @@ def run(path, extra_args=(), timeout=900, rlimit=None, cwd=None):
             x in msg for x in LIMIT_PATTERNS)
         res.failures.append(r)
     if limit:
-        res.reason = "a solver resource limit was hit (undecided, not a violation)"
+        definite = [f for f in res.failures if f["is_verification_failure"]]
+        if not definite:
+            res.reason = "a solver resource limit was hit (undecided, not a violation)"
+            return res
+        # obligations the solver refuted before it ran out of resources elsewhere are failures like any other; the ones it
+        # gave up on stay undecided and are dropped from the report
+        res.limit_note = "a solver resource limit was also hit: obligations not reached are undecided"
+        res.failures = definite
+        res.status = "fail"
         return res
     non_verif = [f for f in res.failures if not f["is_verification_failure"]]
     if non_verif and res.errors == 0:
